@@ -240,3 +240,84 @@ func heldAcrossClose(rec *vr.Rec, reps int) {
 }
 
 var _ = vr.Seed
+
+// blockPastEnd: error paths give messages back too - once. A peer asks (Block2) for a block that lies beyond the end of
+// the body a handler serves, as the first request or as the continuation of a running download, on a datagram and on a
+// stream connection; the connection answers with an error. Afterwards the pool is drained: no object may come out of it
+// twice, and the lifecycle tracker must not have seen a second release.
+func blockPastEnd(rec *vr.Rec, reps int) {
+	for rep := 0; rep < reps; rep++ {
+		kind := []string{"udp", "tcp"}[rep%2]
+		continuation := (rep/2)%2 == 1
+		size := []int{100, 1000, 3000}[(rep/4)%3]
+		szx := rep % 3 // 16, 32, 64
+		bs := 16 << uint(szx)
+		beyond := size/bs + 1 + rep%3
+		c := map[string]any{"scenario": "Block2 request for a block beyond the end of the body", "transport": kind, "body_bytes": size, "block_size": bs, "requested_block": beyond, "as_continuation": continuation}
+		p := pool.New(64, 2048)
+		body := bytes.Repeat([]byte{'z'}, size)
+		var inject func(m ref.Msg)
+		var nsent func() int
+		var closef func()
+		if kind == "udp" {
+			s := sim.NewMemSession()
+			cc := sim.NewUDPConn(s, sim.UDPOpts{Pool: p, Blockwise: true, SZX: 6, BWTimeout: 3 * time.Second, Handler: func(w *responsewriter.ResponseWriter[*udpclient.Conn], r *pool.Message) {
+				_ = w.SetResponse(codes.Content, 0, bytes.NewReader(body))
+			}})
+			inject = func(m ref.Msg) { _ = cc.Process(nil, ref.EncodeUDP(m)) }
+			nsent = func() int { return len(s.Log()) }
+			closef = func() { _ = cc.Close() }
+		} else {
+			sc := sim.NewScriptConn()
+			cc, err := sim.NewTCPConn(sc, sim.TCPOpts{Pool: p, Mutate: func(cfg *tcpclient.Config) { cfg.BlockwiseEnable = true; cfg.BlockwiseSZX = 6 }, Handler: func(w *responsewriter.ResponseWriter[*tcpclient.Conn], r *pool.Message) {
+				_ = w.SetResponse(codes.Content, 0, bytes.NewReader(body))
+			}})
+			if err != nil {
+				continue
+			}
+			inject = func(m ref.Msg) { sc.Feed(ref.EncodeTCP(m)) }
+			nsent = func() int { ms, _ := ref.ParseTCPStream(sc.Written()); return len(ms) }
+			closef = func() { _ = cc.Close() }
+			inject(ref.Msg{Code: 7<<5 | 1, Opts: []ref.Opt{{ID: 2, Val: ref.Uint(1152)}, {ID: 4, Val: nil}}})
+			sc.WaitConsumed(2 * time.Second)
+		}
+		tok := []byte{0x12, byte(rep), 0xbe}
+		ask := func(mid uint16, num int) {
+			before := nsent()
+			inject(ref.Msg{Type: 0, Code: 1, MID: mid, Token: tok, Opts: []ref.Opt{{ID: 11, Val: []byte("big")}, {ID: 23, Val: ref.Uint(uint32(num<<4 | szx))}}})
+			if !sim.WaitFor(300*time.Millisecond, func() bool { return nsent() > before }) {
+				rec.Count("block_past_end_requests_without_reply_"+kind, 1)
+			}
+		}
+		if continuation {
+			ask(900, 0)
+		}
+		ask(901, beyond)
+		time.Sleep(300 * time.Microsecond)
+		closef()
+		time.Sleep(300 * time.Microsecond)
+		// drain the pool: every object at most once
+		seen := map[*pool.Message]int{}
+		var drained []*pool.Message
+		for k := 0; k < 200; k++ {
+			m := p.AcquireMessage(context.Background())
+			seen[m]++
+			drained = append(drained, m)
+		}
+		twice := 0
+		for _, n := range seen {
+			if n > 1 {
+				twice++
+			}
+		}
+		for m := range seen {
+			p.ReleaseMessage(m)
+		}
+		_ = drained
+		rec.Eval(fmt.Sprintf("block-past-end|%s|%d|%d|%d|%v", kind, size, bs, beyond, continuation))
+		rec.Count("block_past_end_cases", 1)
+		if twice > 0 {
+			rec.Violation("C12/"+kind+"/blockwise/pool-hands-one-message-to-two-owners", fmt.Sprintf("after an out-of-range Block2 request was refused, draining the pool returned %d object(s) more than once", twice), c)
+		}
+	}
+}
